@@ -139,10 +139,12 @@ def gen_history(seed, tier, classes=None, weights=None, n_ops=(6, 16),
                 max_handles=3, pre_p=0.4, dmax=6, fresh_p=0.0, dataset_kinds=None,
                 unknown=False, verbose_p=0.15, extras_p=0.5, share_p=0.3,
                 classifier_bias=1, cp_fit_p=0.25, cp_invalid_p=0.0, calib_invalid_p=0.25,
-                store_bias=1, tiny_scale_p=0.0, wide_p=0.0, grid_p=0.0, failfirst_p=0.05):
+                store_bias=1, tiny_scale_p=0.0, wide_p=0.0, grid_p=0.0, failfirst_p=0.05, crash_sweep_p=0.0):
   r = substream(seed, "hist")
   if wide_p and substream(seed, "hist-wide").random() < wide_p:
     return gen_wide_history(seed)
+  if crash_sweep_p and substream(seed, "hist-crash").random() < crash_sweep_p:
+    return gen_crash_sweep(seed, classes or ALL, dmax)
   if tier == "thorough" and r.random() < 0.5:
     # deeper exploration: half of the thorough runs use longer histories,
     # more live handles and datasets up to the properties' dimension bound
@@ -426,6 +428,46 @@ def gen_history(seed, tier, classes=None, weights=None, n_ops=(6, 16),
                         probe=dict(probe(s), via="indices")))
       else:
         ops.append(dict(op="fit", h=s.hid, data=s.data, via="indices"))
+  return plan
+
+
+def gen_crash_sweep(seed, classes, dmax):
+  """Crash-point sweep: one estimator, one dataset; the same fit is interrupted
+  at several points spread over its execution, and after every interruption it
+  is repeated on the same object (which must then behave like a fresh one)."""
+  r = substream(seed, "hist-crash-plan")
+  plan = dict(run_seed=seed, datasets={}, ops=[], world=dict(jumpy_clock=False, fresh_restarts=0))
+  for _ in range(30):
+    name = r.choice(classes)
+    desc = gen_dataset(r, dmax=dmax)
+    p = params_for(name, r, _data(desc))
+    if p is not None:
+      break
+  else:
+    return plan
+  plan["datasets"]["D0"] = desc
+  ops = plan["ops"]
+  pre = r.choice([None, None, "ndarray", "store"])
+  op = dict(op="new", h=0, cls=name, params=p)
+  if pre:
+    op.update(pre=pre, pre_data="D0")
+  ops.append(op)
+  via = "indices" if pre and r.random() < 0.6 else "formed"
+  if r.random() < 0.7:
+    ops.append(dict(op="fit", h=0, data="D0", via=via))
+  k = r.randint(3, 7)
+  fracs = sorted((i + r.random()) / k for i in range(k))
+  if r.random() < 0.5:
+    r.shuffle(fracs)
+  for f in fracs:
+    ops.append(dict(op="fit", h=0, data="D0", via=via,
+                    interrupt=dict(frac=round(f, 6), exc=r.choice(["KeyboardInterrupt", "KeyboardInterrupt", "MemoryError"]))))
+    if r.random() < 0.15:
+      ops.append(dict(op="restart", h=0, how="inproc"))
+    ops.append(dict(op="fit", h=0, data="D0", via=via))
+    if r.random() < 0.3:
+      ops.append(dict(op="query", h=0, method=r.choice(["transform", "pair_distance", "get_mahalanobis_matrix"]),
+                      probe=dict(data="D0", seed=r.randrange(1000), m=3, kind="plain", via="formed")))
   return plan
 
 
